@@ -86,11 +86,16 @@ def build_config(entrypoint, include_none=False):
 
     config = {}
     configurable = entrypoint_configurables[entrypoint]
-    for c in reversed(configurable.mro()):
-        if issubclass(c, NbdimeConfigurable):
-            recursive_update(config, config_instance(c).configured_traits(c), include_none)
-            if (c.__name__ in disk_config):
-                recursive_update(config, disk_config[c.__name__], include_none)
+    classes = [c for c in reversed(configurable.mro())
+               if issubclass(c, NbdimeConfigurable)]
+    # First collect all defaults, then apply the configured sections, so that
+    # a default redefined in a subclass does not shadow a value configured
+    # for a less specific section
+    for c in classes:
+        recursive_update(config, config_instance(c).configured_traits(c), include_none)
+    for c in classes:
+        if (c.__name__ in disk_config):
+            recursive_update(config, disk_config[c.__name__], include_none)
 
     return config
 
